@@ -27,7 +27,7 @@ func init() {
 		},
 		Run:            c06Run,
 		Floor:          func(tier string) int { return 1500 },
-		Rule:           "(parameterised activations HardSigmoid / LeakyRelu / Elu in either spelling with non-default activation_alpha / activation_beta: honoured with these parameters or refused) RNN/GRU/LSTM with seq 1..10, batch 1..4, input 1..5, hidden 1..6; every subset of the optional inputs B, initial_h, initial_c, P present / skipped by \"\" / truncated; attribute combinations (activations together with linear_before_reset / input_forget), activation lists (default, gonnx spelling, ONNX spelling, other ONNX activations, unknown names, wrong count), linear_before_reset and input_forget absent/0/1; per-gate distinct biases and asymmetric weights (|w| <= 0.4). Oracles: (1) float64 ONNX recurrence (gate order iofc / zrh, Appendix A.6): output shapes, Y_h == Y[last], RNN/GRU checked step-wise from the observed Y (Y[t] vs cell(X[t], observed Y[t-1])), LSTM whole-sequence within 2e-4; (2) attribute honoured-or-refused: a value equal to the reference without the attribute (when the two differ) is the 'ignored' violation; (3) metamorphic split on the real code: run(X[:s]) then run(X[s:], state) must reproduce run(X) for a random split point. float32 MUST_EQUAL, float64 MAY_REFUSE, ONNX-invalid MUST_ERROR. Non-trivial = a reference with two gates exchanged differs from the true one by more than 10x the tolerance (so gate order and bias slots are identified); distinct = (operator, sizes, optional-input pattern, attributes)." + ruleReused + ruleChained,
+		Rule:           "(every 8th case again at the operator API with trailing output names spelled \"\") (parameterised activations HardSigmoid / LeakyRelu / Elu in either spelling with non-default activation_alpha / activation_beta: honoured with these parameters or refused) RNN/GRU/LSTM with seq 1..10, batch 1..4, input 1..5, hidden 1..6; every subset of the optional inputs B, initial_h, initial_c, P present / skipped by \"\" / truncated; attribute combinations (activations together with linear_before_reset / input_forget), activation lists (default, gonnx spelling, ONNX spelling, other ONNX activations, unknown names, wrong count), linear_before_reset and input_forget absent/0/1; per-gate distinct biases and asymmetric weights (|w| <= 0.4). Oracles: (1) float64 ONNX recurrence (gate order iofc / zrh, Appendix A.6): output shapes, Y_h == Y[last], RNN/GRU checked step-wise from the observed Y (Y[t] vs cell(X[t], observed Y[t-1])), LSTM whole-sequence within 2e-4; (2) attribute honoured-or-refused: a value equal to the reference without the attribute (when the two differ) is the 'ignored' violation; (3) metamorphic split on the real code: run(X[:s]) then run(X[s:], state) must reproduce run(X) for a random split point. float32 MUST_EQUAL, float64 MAY_REFUSE, ONNX-invalid MUST_ERROR. Non-trivial = a reference with two gates exchanged differs from the true one by more than 10x the tolerance (so gate order and bias slots are identified); distinct = (operator, sizes, optional-input pattern, attributes)." + ruleReused + ruleChained,
 		RaceInThorough: true,
 		Technique:      "runtime monitoring: differential execution against a float64 reference recurrence (step-wise from the observed trace), discriminative non-triviality, and a metamorphic split relation on the real code",
 		Assumptions:    []string{"ONNX recurrence equations as written in DESIGN.md Appendix A.6", "weights bounded so that rounding differences do not amplify along the sequence"},
